@@ -325,7 +325,76 @@ theorem empty_branch (q : Option Bool) (body : PyVal → EState → M (ForInStep
   simp only [ok_bind, ofEState, truthy_list, List.isEmpty_map, Bool.not_not, PySet.iter_, iterate_list, pure_ok]
   split <;> rfl
 
+/-! ### the empty-set branch, independent of the shape of the loop state (x8)
+
+The two lists are read through projections `fl fo` of the state, whatever else it carries and in whatever order; the code
+after the loop is any `k` that hands back the model's choice between the two lists. -/
+
+def EInv {σ : Type} (fl fo : σ → PyVal) (s : σ) (a b : List Ver) : Prop :=
+  fl s = .list (a.map ofV) ∧ fo s = .list (b.map ofV)
+
+/-- what one iteration does to the two lists, in model terms -/
+def EStepG {σ : Type} (fl fo : σ → PyVal) (q : Option Bool) (body : PyVal → σ → M (ForInStep σ)) : Prop :=
+  ∀ v : Ver, WF v → ∀ (s : σ) (a b : List Ver), EInv fl fo s a b → ∃ s', body (ofV v) s = .ok (.yield s') ∧
+    (if v.isPre && !(SSet.truthy q) then (if a.isEmpty then EInv fl fo s' a (b ++ [v]) else EInv fl fo s' a b)
+     else EInv fl fo s' (a ++ [v]) b)
+
+theorem empty_loop_g {σ : Type} (fl fo : σ → PyVal) (q : Option Bool) (body : PyVal → σ → M (ForInStep σ))
+    (hstep : EStepG fl fo q body) (items : List Ver) (hw : ∀ v ∈ items, WF v) :
+    ∀ (s : σ) (a b : List Ver), EInv fl fo s a b → ∃ s',
+      forIn (items.map ofV) s body = .ok s' ∧
+        EInv fl fo s' (SSet.emptyLoop q (items.map fun v => (v, v)) a b).1
+          (SSet.emptyLoop q (items.map fun v => (v, v)) a b).2 := by
+  induction items with
+  | nil => intro s a b h; exact ⟨s, rfl, h⟩
+  | cons v rest ih =>
+    intro s a b h
+    have hv : WF v := hw v (List.mem_cons_self ..)
+    have hrest : ∀ w ∈ rest, WF w := fun w hm => hw w (List.mem_cons_of_mem _ hm)
+    obtain ⟨s1, hb, h1⟩ := hstep v hv s a b h
+    simp only [List.map_cons, List.forIn_cons, hb, SSet.emptyLoop, ok_bind]
+    split at h1
+    · split at h1
+      · simp only [*, if_true]; exact ih hrest s1 _ _ h1
+      · simp only [*, if_true]; exact ih hrest s1 _ _ h1
+    · simp only [*]; exact ih hrest s1 _ _ h1
+
+/-- the empty-set branch: the loop, then code that chooses between the two lists as the model does -/
+theorem empty_branch_g {σ : Type} (fl fo : σ → PyVal) (q : Option Bool) (body : PyVal → σ → M (ForInStep σ))
+    (k : σ → M PyVal) (s0 : σ) (h0 : EInv fl fo s0 [] [])
+    (hstep : EStepG fl fo q body)
+    (hk : ∀ (s : σ) (a b : List Ver), EInv fl fo s a b →
+      k s = .ok (.iter ((if (a.isEmpty && !b.isEmpty && q.isNone) = true then b else a).map ofV)))
+    (items : List Ver) (hw : ∀ v ∈ items, WF v) :
+    (do let s ← forIn (items.map ofV) s0 body
+        k s) =
+      Except.map (fun l => PyVal.iter (l.map ofV))
+        (if ((SSet.emptyLoop q (items.map fun v => (v, v)) [] []).1.isEmpty &&
+              !(SSet.emptyLoop q (items.map fun v => (v, v)) [] []).2.isEmpty && q.isNone) = true
+         then pure (SSet.emptyLoop q (items.map fun v => (v, v)) [] []).2
+         else pure (SSet.emptyLoop q (items.map fun v => (v, v)) [] []).1 : R (List Ver)) := by
+  obtain ⟨s', hl, hinv⟩ := empty_loop_g fl fo q body hstep items hw s0 [] [] h0
+  simp only [hl, ok_bind, hk s' _ _ hinv]
+  split <;> rfl
+
 end SSetFilter
+
+set_option hygiene false in
+/-- the empty-set branch with the two lists at the given places of the loop state: one iteration and the code after the
+loop are evaluated symbolically, whatever their spelling -/
+local macro "empty_branch_at " fl:term ", " fo:term : tactic => `(tactic|
+  (refine SSetFilter.empty_branch_g $fl $fo q _ _ _ ⟨rfl, rfl⟩ ?_ ?_ items hw
+   · intro v hv s a b hinv
+     obtain ⟨ha, hb⟩ := hinv
+     dsimp only at ha hb
+     simp only [SSetFilter.EInv, ofV, _coerce_version_eq_model, ok_bind, Version.is_prerelease_eq_model, truthy_bool, ha, hb,
+       truthy_list, List.isEmpty_map, Bool.not_not, list_append_list, pure_ok]
+     cases v.isPre <;> cases SSet.truthy q <;> cases a.isEmpty <;> simp [ofV]
+   · intro s a b hinv
+     obtain ⟨ha, hb⟩ := hinv
+     dsimp only at ha hb
+     simp only [ha, hb, truthy_list, List.isEmpty_map, Bool.not_not, PySet.iter_, iterate_list, pure_ok, ok_bind]
+     cases hae : a.isEmpty <;> cases hbe : b.isEmpty <;> cases q.isNone <;> simp_all))
 
 /-- `SpecifierSet.filter(iterable, prereleases)` for an iterable of `Version` objects: the versions yielded, in order -/
 theorem SpecifierSet.filter_eq_model (env : Env) (T : SpecSet) (it : List Member) (h : Ordered env T it)
@@ -350,10 +419,15 @@ theorem SpecifierSet.filter_eq_model (env : Env) (T : SpecSet) (it : List Member
       · cases SSet.filterChain it (SSet.truthy q) (items.map fun v => (v, v)) <;> rfl
     | true =>
       simp only [Bool.not_true, Bool.false_eq_true, if_false]
-      refine SSetFilter.empty_branch q _ ?_ items hw
-      intro v hv pv0 fl fo
-      simp only [SSetFilter.ofEState, ofV, _coerce_version_eq_model, ok_bind, Version.is_prerelease_eq_model, truthy_bool,
-        truthy_list, List.isEmpty_map, Bool.not_not, list_append_list, pure_ok]
-      cases v.isPre <;> cases SSet.truthy q <;> cases fl.isEmpty <;> simp
+      -- x8: the two lists are found in the loop state by trying the positions a state of two or three locals offers
+      first
+        | empty_branch_at (fun s => s.1), (fun s => s.2.1)
+        | empty_branch_at (fun s => s.2.1), (fun s => s.2.2)
+        | empty_branch_at (fun s => s.1), (fun s => s.2.2)
+        | empty_branch_at (fun s => s.1), (fun s => s.2)
+        | empty_branch_at (fun s => s.2.1), (fun s => s.1)
+        | empty_branch_at (fun s => s.2.2), (fun s => s.2.1)
+        | empty_branch_at (fun s => s.2.2), (fun s => s.1)
+        | empty_branch_at (fun s => s.2), (fun s => s.1)
 
 end Src
